@@ -260,7 +260,7 @@ func (r *SortReg) wellTyped(x string, t types.Type, depth int) string {
 	case s == SBS:
 		return implies(sx("bs_nil", x), eq(sx("bs_c", x), "emptyStr"))
 	case strings.HasPrefix(s, "Slice_"):
-		f := and(sx("<=", "0", sx("len_"+s, x)), implies(sx("nil_"+s, x), eq(sx("len_"+s, x), "0")))
+		f := and(sx("<=", "0", sx("len_"+s, x)), sx("<=", sx("len_"+s, x), "9223372036854775807"), implies(sx("nil_"+s, x), eq(sx("len_"+s, x), "0")))
 		if depth < 2 {
 			et := r.elemOf[s]
 			ew := r.wellTyped(sx("select", sx("el_"+s, x), "wt_i"), et, depth+1)
